@@ -22,10 +22,33 @@ import sys
 from pathlib import Path
 
 sys.path.insert(0, str(Path(__file__).resolve().parent))
+import c01_eval  # noqa: E402
 
 
 class TranslateError(Exception):
     pass
+
+
+def _interp(tree, cls):
+    return c01_eval.Interp(tree, cls)
+
+
+def _evaluated(what, thunk):
+    """run an evaluation of c01_eval; outside its fragment = outside the translator's grammar"""
+    try:
+        return thunk()
+    except c01_eval.Unsupported as e:
+        raise TranslateError(f'{what}: cannot be evaluated ({e})')
+    except c01_eval.Raised as e:
+        raise TranslateError(f'{what}: evaluation raises {e}')
+
+
+def _perm_of(what, v, n=6):
+    if not isinstance(v, c01_eval.Cols):
+        raise TranslateError(f'{what}: the result is not a selection of columns of the argument')
+    if not all(isinstance(i, int) and 0 <= i < n for i in v.cols):
+        raise TranslateError(f'{what}: column index out of range')
+    return list(v.cols)
 
 
 def coq_str(s):
@@ -60,6 +83,24 @@ def _find_assign(cls, name):
                 isinstance(n.targets[0], ast.Name) and n.targets[0].id == name:
             return n
     raise TranslateError(f'assignment {name} not found in {cls.name}')
+
+
+def _closure(cls, fn, depth=2):
+    """fn and the methods of the same class it calls as self.<name>(...) (transitively, up to
+    depth levels): a helper extracted from the function is read together with it"""
+    methods = {n.name: n for n in cls.body if isinstance(n, ast.FunctionDef)}
+    out, frontier = [fn], [fn]
+    for _ in range(depth):
+        nxt = []
+        for f in frontier:
+            for n in ast.walk(f):
+                if isinstance(n, ast.Call) and isinstance(n.func, ast.Attribute) \
+                        and isinstance(n.func.value, ast.Name) and n.func.value.id == 'self' \
+                        and n.func.attr in methods and methods[n.func.attr] not in out:
+                    out.append(methods[n.func.attr])
+                    nxt.append(methods[n.func.attr])
+        frontier = nxt
+    return out
 
 
 def _region(txt, node):
@@ -112,29 +153,24 @@ def tr_dict_fistr(repo, consumed):
     cls = _find_class(tree, 'FrontISTRData')
     a = _find_assign(cls, 'DICT_FISTR_ELEMENTS')
     consumed['fistr.py:DICT_FISTR_ELEMENTS'] = _region(txt, a)
-    if not isinstance(a.value, ast.Dict):
-        raise TranslateError('DICT_FISTR_ELEMENTS is not a dict literal')
-    table = [(_const_str(k), _const_str(v)) for k, v in zip(a.value.keys, a.value.values)]
-    if len({k for k, _ in table}) != len(table):
-        raise TranslateError('duplicate key in DICT_FISTR_ELEMENTS')
-    # nobody else may assign into the table
-    for n in ast.walk(tree):
-        if isinstance(n, (ast.Assign, ast.AugAssign)):
-            tg = n.targets if isinstance(n, ast.Assign) else [n.target]
-            for t in tg:
-                if isinstance(t, ast.Subscript) and 'DICT_FISTR_ELEMENTS' in ast.dump(t.value):
-                    raise TranslateError('DICT_FISTR_ELEMENTS is modified after its definition')
-    # _convert_fistr_element_type: plain lookup else raise
+    # the table is EVALUATED (dict literal, comprehension over another constant, ...); nobody
+    # may modify it after its definition (checked by the evaluator)
+    it = _interp(tree, cls)
+    d = _evaluated('DICT_FISTR_ELEMENTS', lambda: it.class_const('DICT_FISTR_ELEMENTS'))
+    if not (isinstance(d, dict) and all(isinstance(k, str) and isinstance(v, str) for k, v in d.items())):
+        raise TranslateError('DICT_FISTR_ELEMENTS is not a dict str -> str')
+    table = list(d.items())
+    # _convert_fistr_element_type is the lookup in that table (else raises): evaluated on every
+    # key of the table and on codes that are not keys
     fn = _find_func(cls, '_convert_fistr_element_type')
     consumed['fistr.py:_convert_fistr_element_type'] = _region(txt, fn)
-    body = _body_wo_doc(fn)
-    ok = (len(body) == 1 and isinstance(body[0], ast.If)
-          and ast.unparse(body[0].test) == 'fistr_element_type in self.DICT_FISTR_ELEMENTS'
-          and len(body[0].body) == 1 and isinstance(body[0].body[0], ast.Return)
-          and ast.unparse(body[0].body[0].value) == 'self.DICT_FISTR_ELEMENTS[fistr_element_type]'
-          and len(body[0].orelse) == 1 and isinstance(body[0].orelse[0], ast.Raise))
-    if not ok:
-        raise TranslateError('_convert_fistr_element_type is not a plain table lookup')
+    argn = [a.arg for a in fn.args.args if a.arg != 'self']
+    if len(argn) != 1:
+        raise TranslateError('_convert_fistr_element_type: one argument expected')
+    for k in list(d) + [k for k in ('000', '35', '3511', ' 351', '') if k not in d]:
+        r = _evaluated('_convert_fistr_element_type', lambda: it.run(fn, {argn[0]: k}))
+        if (k in d and r != ('return', d[k])) or (k not in d and r[0] != 'raise'):
+            raise TranslateError(f'_convert_fistr_element_type({k!r}) is not the lookup in DICT_FISTR_ELEMENTS')
     # _reorder_prism
     fn = _find_func(cls, '_reorder_prism')
     consumed['fistr.py:_reorder_prism'] = _region(txt, fn)
@@ -152,7 +188,9 @@ def tr_dict_fistr(repo, consumed):
         assert ast.unparse(body[2]) == 'd = prism.data'
         st = body[3]
         assert isinstance(st, ast.Assign) and ast.unparse(st.targets[0]) == 'prism.data'
-        rperm = _index_list(st.value, 'd')
+        stv = st.value
+        rperm = _perm_of('_reorder_prism', _evaluated('_reorder_prism', lambda: it.expr(
+            stv, {'d': c01_eval.Cols(range(6))})))
         assert ast.unparse(body[4]) == f"self.elements['{rtype}'] = prism"
         assert len(body) == 5 or (len(body) == 6 and isinstance(body[5], ast.Return)
                                   and body[5].value is None)
@@ -176,36 +214,36 @@ def tr_writer(repo, consumed):
     cls = _find_class(tree, 'FistrWriter')
     fn = _find_func(cls, 'detect_fistr_element_type')
     consumed['write_fistr.py:detect_fistr_element_type'] = _region(txt, fn)
-    body = _body_wo_doc(fn)
-    if len(body) != 1 or not isinstance(body[0], ast.If):
-        raise TranslateError('detect_fistr_element_type: a single if/elif chain expected')
+    # the decision femio type -> code is EVALUATED on every element type name the writer can
+    # meet (write_msh iterates elements.items() = the types of ELEMENT_TYPES that are present):
+    # if/elif chain, guard clauses, loop over a constant table, dict lookup, ... all read alike
+    it = _interp(tree, cls)
+    try:
+        domain = tr_element_types(repo, {})
+    except (TranslateError, OSError, SyntaxError):
+        domain = []
+    domain = domain + [t for t in KNOWN_TYPE_NAMES if t not in domain]
+    argn = [a.arg for a in fn.args.args if a.arg != 'self']
+    if len(argn) != 1:
+        raise TranslateError('detect_fistr_element_type: one argument expected')
     table = []
-    node = body[0]
-    while True:
-        t = node.test
-        if not (isinstance(t, ast.Compare) and len(t.ops) == 1 and isinstance(t.ops[0], ast.Eq)
-                and isinstance(t.left, ast.Name) and t.left.id == 'element_type'):
-            raise TranslateError(f'detect_fistr_element_type: test at line {node.lineno}')
-        key = _const_str(t.comparators[0])
-        if not (len(node.body) == 1 and isinstance(node.body[0], ast.Return)):
-            raise TranslateError(f'detect_fistr_element_type: body at line {node.lineno}')
-        table.append((key, _const_str(node.body[0].value)))
-        if len(node.orelse) == 1 and isinstance(node.orelse[0], ast.If):
-            node = node.orelse[0]
-            continue
-        if len(node.orelse) == 1 and isinstance(node.orelse[0], ast.Raise):
-            break
-        raise TranslateError('detect_fistr_element_type: else branch must raise')
-    if len({k for k, _ in table}) != len(table):
-        raise TranslateError('duplicate test in detect_fistr_element_type')
-    # _reorder_prism_data
+    for t in domain:
+        r = _evaluated('detect_fistr_element_type', lambda: it.run(fn, {argn[0]: t}))
+        if r[0] == 'return':
+            if not isinstance(r[1], str):
+                raise TranslateError(f'detect_fistr_element_type({t!r}) returns {r[1]!r}')
+            table.append((t, r[1]))
+    # _reorder_prism_data, evaluated on a symbolic 6-column array: which column goes where
+    # (any store into the argument = in-place change is outside the fragment)
     fn = _find_func(cls, '_reorder_prism_data')
     consumed['write_fistr.py:_reorder_prism_data'] = _region(txt, fn)
-    body = _body_wo_doc(fn)
-    if not (len(body) == 2 and ast.unparse(body[0]) == 'd = prism_data'
-            and isinstance(body[1], ast.Return)):
-        raise TranslateError('_reorder_prism_data has an unexpected shape')
-    wperm = _index_list(body[1].value, 'd')
+    argn = [a.arg for a in fn.args.args if a.arg != 'self']
+    if len(argn) != 1:
+        raise TranslateError('_reorder_prism_data: one argument expected')
+    r = _evaluated('_reorder_prism_data', lambda: it.run(fn, {argn[0]: c01_eval.Cols(range(6))}))
+    if r[0] != 'return':
+        raise TranslateError('_reorder_prism_data raises')
+    wperm = _perm_of('_reorder_prism_data', r[1])
     # the element loop of write_msh
     fn = _find_func(cls, 'write_msh')
     consumed['write_fistr.py:write_msh'] = _region(txt, fn)
@@ -223,10 +261,14 @@ def tr_writer(repo, consumed):
         if ast.unparse(s1.test) in ('False',):
             wcodes = []
         else:
-            assert isinstance(s1.test, ast.Compare) and isinstance(s1.test.ops[0], ast.In) \
-                and ast.unparse(s1.test.left) == 'fistr_element_type' \
-                and isinstance(s1.test.comparators[0], (ast.List, ast.Tuple))
-            wcodes = [_const_str(e) for e in s1.test.comparators[0].elts]
+            assert isinstance(s1.test, ast.Compare) and len(s1.test.ops) == 1 \
+                and isinstance(s1.test.ops[0], ast.In) \
+                and ast.unparse(s1.test.left) == 'fistr_element_type'
+            cmp0 = s1.test.comparators[0]
+            wcodes = _evaluated('write_msh: codes written in prism order', lambda: it.expr(cmp0, {}))
+            assert isinstance(wcodes, (list, tuple, set, frozenset, dict)) \
+                and all(isinstance(c, str) for c in wcodes)
+            wcodes = sorted(wcodes)
         assert [ast.unparse(x) for x in s1.body] == \
             ['elements_data = self._reorder_prism_data(elements.data)']
         assert [ast.unparse(x) for x in s1.orelse] == ['elements_data = elements.data']
@@ -279,9 +321,10 @@ def tr_element_types(repo, consumed):
     cls = _find_class(tree, 'FEMElementalAttribute')
     a = _find_assign(cls, 'ELEMENT_TYPES')
     consumed['fem_elemental_attribute.py:ELEMENT_TYPES'] = _region(txt, a)
-    if not isinstance(a.value, ast.List):
-        raise TranslateError('ELEMENT_TYPES is not a list literal')
-    types = [_const_str(e) for e in a.value.elts]
+    types = _evaluated('ELEMENT_TYPES', lambda: _interp(tree, cls).class_const('ELEMENT_TYPES'))
+    if not (isinstance(types, (list, tuple)) and all(isinstance(t, str) for t in types)):
+        raise TranslateError('ELEMENT_TYPES is not a list of strings')
+    types = list(types)
     for name in ('keys', 'values', 'items'):
         fn = _find_func(cls, name)
         consumed[f'fem_elemental_attribute.py:{name}'] = _region(txt, fn)
@@ -293,6 +336,9 @@ def tr_element_types(repo, consumed):
             raise TranslateError(f'FEMElementalAttribute.{name} no longer iterates in ELEMENT_TYPES order')
     return types
 
+
+KNOWN_TYPE_NAMES = ['line', 'line2', 'spring', 'tri', 'tri2', 'quad', 'quad2', 'polygon', 'tet', 'tet2',
+                    'pyr', 'pyr2', 'prism', 'prism2', 'hex', 'hex2', 'hexprism', 'polyhedron', 'unknown']
 
 IGNORE_ALTS = {'#': 'IHash', r'^\s*$': 'IBlank', '^!!': 'IBang', r'^\s*!!': 'IBangWs',
                '!!': 'IBangAny'}
@@ -405,7 +451,11 @@ def tr_split_blocks(repo, consumed):
     cls = _find_class(tree, 'FrontISTRData')
     fn = _find_func(cls, '_read_element_groups')
     consumed['fistr.py:_read_element_groups'] = _region(txt, fn)
-    src = ast.unparse(fn)
+    # the !EGROUP branch may live in a private helper called from _read_element_groups
+    parts = [f for f in _closure(cls, fn) if f.name != '_merge_groups']
+    for f in parts[1:]:
+        consumed['fistr.py:' + f.name] = _region(txt, f)
+    src = '\n'.join(ast.unparse(f) for f in parts)
     old = ('self.element_groups.update({e: l.to_values(data_type=int, to_rank1=True) '
            'for e, l in zip(egrps, series)})')
     new = ('self.element_groups.update(self._merge_groups(egrps, '
@@ -564,30 +614,92 @@ def tr_read_array(repo, consumed):
     return fmt
 
 
+def components(repo, consumed):
+    """(region name, thunk -> dict of table entries), in translation order"""
+    def dict_fistr():
+        rtable, rtype, rperm = tr_dict_fistr(repo, consumed)
+        return {'fistr_elements': rtable, 'prism_read_type': rtype, 'prism_perm_read': rperm}
+
+    def writer():
+        wtable, wperm, wcodes, elem_hdr, elem_fmt, real_fmt = tr_writer(repo, consumed)
+        if elem_fmt != '%d':
+            raise TranslateError(f'element rows are written with {elem_fmt!r}, not %d')
+        return {'detect_table': wtable, 'prism_perm_write': wperm, 'prism_write_codes': wcodes,
+                'element_header': elem_hdr, 'frac_digits': _fmt_digits(real_fmt, 'write_data')}
+
+    def element_types():
+        return {'element_types': tr_element_types(repo, consumed)}
+
+    def ignore():
+        pats, src = tr_ignore(repo, consumed)
+        return {'ignore_pats': pats, 'ignore_src': src}
+
+    def read_array():
+        return {'default_frac_digits': _fmt_digits(tr_read_array(repo, consumed), 'read_array')}
+
+    def remove_useless():
+        return {'rebind_by_id': tr_remove_useless(repo, consumed)}
+
+    def generate_constraints():
+        return {'gen_empty_ok': tr_generate_constraints(repo, consumed)}
+
+    def split_blocks():
+        g, i, n = tr_split_blocks(repo, consumed)
+        return {'merge_egroups': g, 'merge_initial': i, 'merge_ngroups': n}
+
+    def first_write():
+        m, c = tr_first_write(repo, consumed)
+        return {'msh_truncated': m, 'cnt_truncated': c}
+
+    def pinned():
+        tr_pinned(repo, consumed)
+        return {}
+
+    return [('dict_fistr', dict_fistr), ('writer', writer), ('element_types', element_types),
+            ('ignore', ignore), ('read_array', read_array), ('remove_useless', remove_useless),
+            ('generate_constraints', generate_constraints), ('split_blocks', split_blocks),
+            ('first_write', first_write), ('pinned', pinned)]
+
+
+BASELINE = Path(__file__).resolve().parent / 'c01_baseline.json'
+
+
+def make_baseline(repo):
+    consumed, tables, regions = {}, {}, {}
+    for name, thunk in components(repo, consumed):
+        d = thunk()
+        tables.update(d)
+        regions[name] = sorted(d)
+    return {'tables': tables, 'regions': regions}
+
+
 def translate(repo):
-    consumed = {}
-    rtable, rtype, rperm = tr_dict_fistr(repo, consumed)
-    wtable, wperm, wcodes, elem_hdr, elem_fmt, real_fmt = tr_writer(repo, consumed)
-    types = tr_element_types(repo, consumed)
-    ignore, ignore_src = tr_ignore(repo, consumed)
-    default_float_fmt = tr_read_array(repo, consumed)
-    rebind_by_id = tr_remove_useless(repo, consumed)
-    gen_empty_ok = tr_generate_constraints(repo, consumed)
-    merge_g, merge_i, merge_n = tr_split_blocks(repo, consumed)
-    msh_trunc, cnt_trunc = tr_first_write(repo, consumed)
-    tr_pinned(repo, consumed)
-    if elem_fmt != '%d':
-        raise TranslateError(f'element rows are written with {elem_fmt!r}, not %d')
-    return {
-        'fistr_elements': rtable, 'prism_read_type': rtype, 'prism_perm_read': rperm,
-        'detect_table': wtable, 'prism_perm_write': wperm, 'prism_write_codes': wcodes,
-        'element_header': elem_hdr, 'frac_digits': _fmt_digits(real_fmt, 'write_data'),
-        'default_frac_digits': _fmt_digits(default_float_fmt, 'read_array'),
-        'element_types': types, 'ignore_pats': ignore, 'ignore_src': ignore_src,
-        'rebind_by_id': rebind_by_id, 'gen_empty_ok': gen_empty_ok,
-        'merge_egroups': merge_g, 'merge_initial': merge_i, 'merge_ngroups': merge_n,
-        'msh_truncated': msh_trunc, 'cnt_truncated': cnt_trunc,
-    }, consumed
+    """strict: any region outside the grammar raises TranslateError"""
+    consumed, t = {}, {}
+    for _, thunk in components(repo, consumed):
+        t.update(thunk())
+    return t, consumed
+
+
+def translate_degrading(repo, baseline=None):
+    """-> (tables, consumed, degraded).  A region the translator cannot read is taken from
+    the committed baseline (translate/c01_baseline.json = the translation of the registered
+    tree) and listed in degraded = {region: reason}: the caller then has to decide what the
+    region decides by a widened correspondence instead (tie T -> H), see harness/c01.py."""
+    import json
+    consumed, degraded, t = {}, {}, {}
+    for name, thunk in components(repo, consumed):
+        try:
+            t.update(thunk())
+        except (TranslateError, SyntaxError, OSError, KeyError, IndexError, ValueError,
+                AttributeError, TypeError) as e:
+            if baseline is None:
+                baseline = json.loads(BASELINE.read_text())
+            for k in baseline['regions'][name]:
+                v = baseline['tables'][k]
+                t[k] = [tuple(x) if isinstance(x, list) else x for x in v] if isinstance(v, list) else v
+            degraded[name] = f'{type(e).__name__}: {e}'
+    return t, consumed, degraded
 
 
 def emit(t):
@@ -648,6 +760,12 @@ def emit(t):
 
 
 if __name__ == '__main__':
-    import sys
-    t, c = translate(sys.argv[1] if len(sys.argv) > 1 else '/repo')
-    print(emit(t))
+    import json
+    if len(sys.argv) > 1 and sys.argv[1] == '--write-baseline':
+        b = make_baseline(sys.argv[2] if len(sys.argv) > 2 else '/repo')
+        BASELINE.write_text(json.dumps(b, indent=1) + '\n')
+        print('baseline written:', BASELINE)
+    else:
+        t, c, d = translate_degrading(sys.argv[1] if len(sys.argv) > 1 else '/repo')
+        print(emit(t))
+        print('(* degraded:', json.dumps(d, indent=1), '*)')
